@@ -50,7 +50,11 @@ def formula_work(payload):
         nd = 7
         if L.min_density(lab) < 1e-5:
             return {"harness_error": "density below the clip threshold in the lab: %r" % (combo,)}
-        for batch in payload["batches"]:
+        batches = list(payload["batches"])
+        if w_bkg == 1.0:
+            # data weights +1 and background weights -1 cancel exactly in batches of even size at the data/background seam
+            batches = [2, 4] + [x for x in batches if x not in (2, 4)][:1]
+        for batch in batches:
             b = {"N-1": nd - 1, "N": nd, "N+1": nd + 1}.get(batch, batch)
             case = dict(case0, batch=b)
             try:
@@ -155,6 +159,8 @@ def combos(tier, model):
         trip = list(dict.fromkeys(trip))
     for a, b, c in trip:
         out.append((a, b, c, 1, False, 1, 0.8))
+    if "unweighted" in bgm:
+        out.append(("absent", "positive", "unweighted", 1, False, 1, 1.0))  # unit weights, w_bkg = 1 (the Model default)
     out.append(("positive", "positive", bgm[-1], 2, False, 1, 0.1))
     out.append(("mixed", "absent", bgm[-1], 2, True, 1, 0.1))
     out.append(("positive", "positive", bgm[-1], 1, True, 2, 0.1))
